@@ -40,7 +40,8 @@ func withSpare(v interface{}) interface{} {
 
 const c06DocText = `{"an":[3,1,2,1],"as":["b","a","c"],"ao":[{"n":2,"s":"b","an":[2,1],"o":{"n":5}},{"n":1,"s":"a","an":[4,3],"o":{"n":4}},{"n":3,"s":"c","an":[],"o":{"n":6}},{"n":1,"s":"d","an":[1],"o":{"n":4}}],
 "aa":[[2,1],[4,3],[]],"am":[1,"a",null,[2]],"o":{"n":1,"s":"x","an":[9,8],"as":["q","p"],"o":{"n":2},"ao":[{"n":2},{"n":1}]},"o2":{"s":"y","z":null,"n":7},"s":"héllo","t":"lo","n":-1.5,"m":2,"b":true,"z":null,
-"mixed":[{"k":2,"i":0},{"k":1,"i":1},{"k":"x","i":2},{"k":3,"i":3}]}`
+"mixed":[{"k":2,"i":0},{"k":1,"i":1},{"k":"x","i":2},{"k":3,"i":3}],
+"nz":-0.0,"anz":[1,-0.0,2],"oz":{"n":-0.0,"an":[-0.0]},"sorted":[{"n":1,"s":"a"},{"n":2,"s":"b"},{"n":3,"s":"c"}]}`
 
 // c06BaseDoc is the base document of C06 / C12 / C13: c06DocText plus arrays long enough (24
 // elements, with tied keys) to pass any "small input" fast path of the sorting functions.
@@ -180,6 +181,12 @@ func c06Specials() []*gen.Expr {
 		gen.Func("reverse", gen.Func("sort_by", gen.Field("ao"), n)),
 		gen.Func("join", gen.Raw(","), gen.Func("sort", gen.Field("as"))),
 		gen.Func("max_by", gen.Field("ao"), gen.ExpRef(gen.Func("length", gen.Func("sort", gen.Field("an"))))),
+		// values a "clean-up" pass could rewrite without changing them under ==  (negative zero), results that are
+		// the document itself, and inputs that are already in the order a function would produce
+		gen.Current(), gen.Field("anz"), gen.Field("oz"), gen.Func("not_null", gen.Field("anz")), gen.Func("to_array", gen.Field("anz")), gen.MultiList(gen.Field("anz"), gen.Field("nz")),
+		gen.Chain(gen.Field("anz"), gen.StListStar()), gen.Func("values", gen.Field("oz")), gen.Or(gen.Field("z"), gen.Field("oz")), gen.Func("min_by", gen.MultiList(gen.Field("oz")), gen.ExpRef(gen.Field("n"))),
+		gen.Func("reverse", gen.Func("sort_by", gen.Field("sorted"), n)), gen.Func("reverse", gen.Func("sort_by", gen.Field("sorted"), s)), gen.Func("reverse", gen.Func("sort", gen.Field("bign"))),
+		gen.Func("sort_by", gen.Field("sorted"), n), gen.Func("sort", gen.Chain(gen.Field("sorted"), gen.StListStar(), gen.StField("n"))), gen.Func("abs", gen.Func("reverse", gen.Func("sort_by", gen.Field("sorted"), n))),
 		// long arrays (24 elements, tied keys)
 		gen.Func("sort_by", gen.Field("big"), n), gen.Func("sort_by", gen.Field("big"), s), gen.Func("max_by", gen.Field("big"), n), gen.Func("min_by", gen.Field("big"), s),
 		gen.Func("sort", gen.Field("bign")), gen.Func("sort", gen.Field("bigs")), gen.Func("reverse", gen.Field("big")), gen.Func("map", n, gen.Field("big")),
